@@ -182,7 +182,7 @@ func (r *refFS) chmod(name string, mode int64) bool {
 
 // ---- the differential step ----
 
-var c02Parents = []string{"", "/d", "/e", "/f", "/missing"}
+var c02Parents = []string{"", "/d", "/e", "/f", "/missing", "/\xc3\xa9\xc3\xa9"}
 
 func c02Prestate() (*verifFS, *refFS) {
 	v := verifNewFS(config.PipeConfig{}, false, true)
@@ -212,6 +212,10 @@ func c02Prestate() (*verifFS, *refFS) {
 	// a component name reused at a deeper level: "/e/d" is not below "/d"
 	add("/e/d", true, 0)
 	add("/e/d/e", false, 0) // (its name consists of characters of its parent's path)
+	// a directory whose name has more bytes than characters, with a short-named subdirectory that is not empty
+	add("/\xc3\xa9\xc3\xa9", true, 0)
+	add("/\xc3\xa9\xc3\xa9/y", true, 0)
+	add("/\xc3\xa9\xc3\xa9/y/j", false, 0)
 	if vm.Bool("tombstone") {
 		// a name that was used and deleted earlier
 		v.Env.AddEntry("/t", tar.TypeReg, 0, true, "")
@@ -250,7 +254,7 @@ func c02Agree(v *verifFS, ref *refFS, checkMode bool) bool {
 	return ok && nLive == nRef
 }
 
-const c02Ops = 11
+const c02Ops = 12
 
 // c02Step performs one call on both the filesystem and the reference and compares them. light restricts the
 // call to a small concrete vocabulary (used for the first call of a two-call history). It returns false when
@@ -266,7 +270,7 @@ func c02Step(v *verifFS, ref *refFS, tag string, light bool) bool {
 		comp := persisters.VerifComponent(tag+"N", 1, "gtx_")
 		name = c02Parents[pi] + "/" + comp
 		if vm.Bool(tag + "useExistingDirAsName") {
-			name = []string{"/d", "/e", "/f", "/d/g"}[vm.Choice(tag+"existing", 4)]
+			name = []string{"/d", "/e", "/f", "/d/g", "/\xc3\xa9\xc3\xa9", "/\xc3\xa9\xc3\xa9/y"}[vm.Choice(tag+"existing", 6)]
 		}
 		op = vm.Choice(tag+"op", c02Ops)
 	}
@@ -376,6 +380,34 @@ func c02Step(v *verifFS, ref *refFS, tag string, light bool) bool {
 			err = h.Close()
 		}
 		want = ref.open(canon, acc != os.O_RDONLY, create, excl, trunc)
+	}
+	if op == 11 {
+		// list: the names a directory handle returns are exactly the reference's children
+		h, e := v.FS.Open(name)
+		err = e
+		x := ref.find(canon)
+		want = x != nil
+		if e == nil && x != nil && x.dir {
+			names, le := h.Readdirnames(-1)
+			vm.Assert("C02.list_ok", le == nil)
+			nRef := 0
+			for _, y := range ref.e {
+				if y.live && y.name != "/" && refParent(y.name) == canon {
+					nRef++
+					found := false
+					for _, n := range names {
+						if n == y.name[strings.LastIndex(y.name, "/")+1:] {
+							found = true
+						}
+					}
+					vm.Assert("C02.list_contains_every_child", found)
+				}
+			}
+			vm.Assert("C02.list_contains_nothing_else", len(names) == nRef)
+		}
+		if e == nil {
+			h.Close()
+		}
 	}
 	vm.Assert("C02.success_iff_reference_succeeds", (err == nil) == want)
 	agree := true
